@@ -347,6 +347,152 @@ m('sync_only_change_pop_back', SU + 'node/algo/bfs.rs', '''        while let Som
                 if self.method.exec(&edge) {
                     let v = edge.target().clone();''', [['C15', 'SIB'], ['C04', 'BFS1']])
 
+# ---- benign edits: behaviour-preserving, every check must stay silent
+B = []
+
+
+def b(name, file, old, new, count=1):
+    B.append((name, file, old, new, count))
+
+
+b('benign_insert_as_test', D + 'node/algo/bfs.rs', """                    let v = edge.1.clone();
+                    if !visited.contains(v.key()) {
+                        visited.insert(v.key().clone());
+                        result.push(edge);
+                        if let Some(ref t) = self.target {
+                            if v.key() == t {
+                                return true;
+                            }
+                        }
+                        queue.push_back(v);
+                    }
+                }
+            }
+        }
+        false
+    }
+
+    fn loop_inbound(""", """                    let v = edge.1.clone();
+                    if visited.insert(v.key().clone()) {
+                        result.push(edge);
+                        if let Some(ref t) = self.target {
+                            if v.key() == t {
+                                return true;
+                            }
+                        }
+                        queue.push_back(v);
+                    }
+                }
+            }
+        }
+        false
+    }
+
+    fn loop_inbound(""")
+b('benign_logging_one_sided', SD + 'node/algo/dfs.rs', """        if let Some(node) = queue.pop() {
+            for edge in node.iter_out() {
+                if self.method.exec(&edge) {
+                    let v = edge.target().clone();""", """        if let Some(node) = queue.pop() {
+            if cfg!(debug_assertions) && std::env::var_os("GDSL_TRACE").is_some() {
+                eprintln!("dfs: expanding {}", node.key());
+            }
+            for edge in node.iter_out() {
+                if self.method.exec(&edge) {
+                    let v = edge.target().clone();""")
+b('benign_new_query_method', U + 'node/mod.rs', """    pub fn is_connected(&self, other: &K) -> bool {""", """    /// Returns true if the node has at least one incident edge.
+    pub fn has_edges(&self) -> bool {
+        !self.is_orphan()
+    }
+
+    pub fn is_connected(&self, other: &K) -> bool {""")
+b('benign_connect_reordered', D + 'node/mod.rs', """        self.inner
+            .2
+            .borrow_mut()
+            .push_outbound((other.clone(), value.clone()));
+        other
+            .inner
+            .2
+            .borrow_mut()
+            .push_inbound((self.clone(), value));""", """        other
+            .inner
+            .2
+            .borrow_mut()
+            .push_inbound((self.clone(), value.clone()));
+        self.inner
+            .2
+            .borrow_mut()
+            .push_outbound((other.clone(), value));""")
+b('benign_loop_match', U + 'node/algo/bfs.rs', """        while let Some(node) = queue.pop_front() {
+            for edge in node.iter() {
+                if self.method.exec(&edge) {
+                    let v = edge.target().clone();""", """        loop {
+            let node = match queue.pop_front() {
+                Some(node) => node,
+                None => break,
+            };
+            for edge in node.iter() {
+                if self.method.exec(&edge) {
+                    let v = edge.target().clone();""")
+b('benign_try_connect_branches', SU + 'node/mod.rs', """        if self.is_connected(other.key()) {
+            Err(Error::EdgeAlreadyExists)
+        } else {
+            self.connect(other, value);
+            Ok(())
+        }""", """        if !self.is_connected(other.key()) {
+            self.connect(other, value);
+            Ok(())
+        } else {
+            Err(Error::EdgeAlreadyExists)
+        }""")
+b('benign_rename_locals', D + 'node/algo/dfs.rs', """        if let Some(node) = queue.pop() {
+            for edge in node.iter_out() {
+                if self.method.exec(&edge) {
+                    let v = edge.target().clone();
+                    if !visited.contains(v.key()) {
+                        visited.insert(v.key().clone());
+                        result.push(edge);
+                        if let Some(ref t) = self.target {
+                            if v.key() == t {
+                                return true;
+                            }
+                        }
+                        queue.push(v.clone());
+                        if self.recurse_outbound(result, visited, queue) {""", """        // take the node we are about to expand
+        if let Some(current) = queue.pop() {
+            for out_edge in current.iter_out() {
+                if self.method.exec(&out_edge) {
+                    let next = out_edge.target().clone();
+                    if !visited.contains(next.key()) {
+                        visited.insert(next.key().clone());
+                        result.push(out_edge);
+                        if let Some(ref wanted) = self.target {
+                            if next.key() == wanted {
+                                return true;
+                            }
+                        }
+                        queue.push(next.clone());
+                        if self.recurse_outbound(result, visited, queue) {""")
+b('benign_is_orphan_by_degree', D + 'node/mod.rs', """        self.is_root() && self.is_leaf()""", """        self.in_degree() + self.out_degree() == 0""")
+b('benign_position_rewrite', SD + 'node/adjacent.rs', """        for (idx, edge) in self.inbound.iter().enumerate() {
+            if edge.0.upgrade().unwrap().key() == source {
+                return Ok(self.inbound.remove(idx).1);
+            }
+        }
+        Err(Error::EdgeNotFound)""", """        let idx = self
+            .inbound
+            .iter()
+            .position(|edge| edge.0.upgrade().unwrap().key() == source)
+            .ok_or(Error::EdgeNotFound)?;
+        Ok(self.inbound.remove(idx).1)""")
+b('benign_scc_reversed_iteration', D + 'mod.rs', """        while let Some(node) = ordering.pop() {
+            if !invariant.contains(node.key()) {""", """        ordering.reverse();
+        for node in ordering {
+            if !invariant.contains(node.key()) {""")
+b('benign_graph_get_match', SD + 'mod.rs', """        self.nodes.get(key).cloned()""", """        match self.nodes.get(key) {
+            Some(node) => Some(node.clone()),
+            None => None,
+        }""")
+
 
 def main():
     os.makedirs(MUT, exist_ok=True)
@@ -383,6 +529,17 @@ def main():
         diff = ''.join(difflib.unified_diff(src.splitlines(True), src2.splitlines(True), 'a/' + file, 'b/' + file))
         open(os.path.join(MUT, name + '.diff'), 'w').write(diff)
         index[name] = {'expect': expect, 'kind': 'anchored edit'}
+    for name, file, o, n, count in B:
+        path = os.path.join(REPO, file)
+        src = open(path).read()
+        if src.count(o) != count:
+            print('ANCHOR', name, 'matches', src.count(o))
+            bad += 1
+            continue
+        src2 = src.replace(o, n, 1)
+        diff = ''.join(difflib.unified_diff(src.splitlines(True), src2.splitlines(True), 'a/' + file, 'b/' + file))
+        open(os.path.join(MUT, name + '.diff'), 'w').write(diff)
+        index[name] = {'expect': [], 'benign': True, 'kind': 'behaviour-preserving edit: every check must stay silent'}
     json.dump(index, open(os.path.join(MUT, 'index.json'), 'w'), indent=1, sort_keys=True)
     print('%d mutants written, %d anchors failed' % (len(index), bad))
 
